@@ -104,9 +104,12 @@ func coerceFloat(v interface{}) interface{} {
 	case uint:
 		return float64(v)
 	case float32:
-		return float64(v)
+		return coerceFloat(float64(v))
 	case float64:
-		return v
+		// NaN and the infinities have no GraphQL (or JSON) representation.
+		if !math.IsNaN(v) && !math.IsInf(v, 0) {
+			return v
+		}
 	}
 	return nil
 }
